@@ -556,6 +556,82 @@ Builtin(N, st, name, a, multi, ln) ==
       [] name = "gpanic" ->    \* Go panic inside a host function: reaches pcall as the panic text
            (IF a1[1] # "s" THEN Fault(st, ln) ELSE Raise(st, a1))
       [] name = "snap" -> RetV(st, <<>>, multi)      \* harness snapshot: no effect on the semantics
+      [] name = "dbg.getinfo" ->
+           (* fields judged by C17: currentline, linedefined, lastlinedefined *)
+           (LET MkInfo(cur, fnref) ==
+                    LET nd == IF st.heap[fnref].node = 0 THEN [ln |-> <<0, 0>>] ELSE N[st.heap[fnref].node]
+                        tref == Len(st.heap) + 1
+                        kv0 == <<<<Str(Bytes("currentline")), Num(cur)>>, <<Str(Bytes("linedefined")), Num(nd.ln[1])>>,
+                                 <<Str(Bytes("lastlinedefined")), Num(nd.ln[2])>>, <<Str(Bytes("func")), <<"f", fnref>>>>>>
+                    IN RetV(AllocObj(st, [o |-> "tab", kv |-> kv0, mt |-> 0]), <<<<"t", tref>>>>, multi)
+                r1 == NearestIdx(st.kont, IsRet) IN
+            IF a1[1] = "f" THEN MkInfo(-1, a1[2])
+            ELSE IF a1[1] # "n" THEN Unmod(st, "getinfo of host function")
+            ELSE IF a1[2] = 1 THEN (IF ~OneLine(ln) \/ ln = NoPos THEN Unmod(st, "getinfo call spans lines") ELSE MkInfo(ln[1], st.kont[r1].fn))
+            ELSE IF a1[2] = 2
+                 THEN (LET r2 == NearestIdx(SubSeq(st.kont, 1, r1 - 1), IsRet) IN
+                       IF r2 = 0 THEN Unmod(st, "getinfo level beyond the chunk")
+                       ELSE IF st.kont[r1].ln = NoPos \/ ~OneLine(st.kont[r1].ln) THEN Unmod(st, "getinfo level 2 through host code")
+                       ELSE MkInfo(st.kont[r1].ln[1], st.kont[r2].fn))
+            ELSE Unmod(st, "getinfo level"))
+      [] name = "dbg.getlocal" \/ name = "dbg.setlocal" ->
+           (LET r1 == NearestIdx(st.kont, IsRet)
+                IsBlk(x) == x.w = "block"
+                RECURSIVE Below(_, _)          \* the continuation as seen from `lv` levels up; <<>> if a host-called frame intervenes
+                Below(K, lv) == IF lv <= 1 THEN K
+                                ELSE LET r == NearestIdx(K, IsRet) IN
+                                     IF r <= 1 \/ K[r].ln = NoPos THEN <<>> ELSE Below(SubSeq(K, 1, r - 1), lv - 1)
+                K1 == IF a1[1] = "n" /\ a1[2] >= 1 /\ a1[2] <= 6 THEN Below(st.kont, a1[2]) ELSE <<>>
+                rr == NearestIdx(K1, IsRet)
+                bi == NearestIdx(K1, IsBlk) IN
+            IF a1[1] # "n" \/ a2[1] # "n" \/ a1[2] < 1 \/ a1[2] > 6 THEN Unmod(st, "getlocal level/index")
+            ELSE IF K1 = <<>> THEN Unmod(st, "getlocal level through host code or beyond the chunk")
+            ELSE IF rr = 0 \/ bi = 0 \/ bi < rr THEN Unmod(st, "getlocal: no block")
+            ELSE LET env == K1[bi].env   base == K1[rr].base   i == a2[2] IN
+                 IF i < 1 \/ base + i > Len(env) THEN RetV(st, <<Nil>>, multi)
+                 ELSE LET nm == Str(N[Len(N)].tab[env[base + i][1]])   c == env[base + i][2] IN
+                      IF name = "dbg.getlocal" THEN RetV(st, <<nm, st.cells[c]>>, multi)
+                      ELSE RetV([st EXCEPT !.cells[c] = a3], <<nm>>, multi))
+      [] name = "dbg.getupvalue" \/ name = "dbg.setupvalue" ->
+           (IF a1[1] # "f" \/ a2[1] # "n" THEN Unmod(st, "getupvalue argument")
+            ELSE LET c == st.heap[a1[2]]
+                     uv == IF c.node = 0 THEN <<>> ELSE N[c.node].uv
+                     i == a2[2] IN
+                 IF i < 1 \/ i > Len(uv) THEN RetV(st, <<Nil>>, multi)
+                 ELSE LET cell == EnvCell(c.env, uv[i])   nm == Str(N[Len(N)].tab[uv[i]]) IN
+                      IF cell = 0 THEN Unmod(st, "upvalue not bound")
+                      ELSE IF name = "dbg.getupvalue" THEN RetV(st, <<nm, st.cells[cell]>>, multi)
+                      ELSE RetV([st EXCEPT !.cells[cell] = a3], <<nm>>, multi))
+      [] name \in {"str.sub", "str.len", "str.byte", "str.rep"} ->
+           (LET sv == ToStr(a1) IN
+            IF sv[1] = "un" THEN Unmod(st, "string function on fault text")
+            ELSE IF sv[1] = "no" THEN Fault(st, ln)
+            ELSE LET b == sv[2]   l == Len(b)
+                     PosRelat(p) == IF p >= 0 THEN p ELSE (IF l + p + 1 < 0 THEN 0 ELSE l + p + 1)
+                     IntArg(v, dflt) == IF v = Nil THEN Num(dflt) ELSE ToNum(v) IN
+                 CASE name = "str.len" -> RetV(st, <<Num(l)>>, multi)
+                   [] name = "str.sub" ->
+                        (LET i0 == IntArg(a2, 1)  j0 == IntArg(a3, -1) IN
+                         IF i0[1] # "n" \/ j0[1] # "n" THEN (IF i0[1] = "un" \/ j0[1] = "un" THEN Unmod(st, "numeral") ELSE Fault(st, ln))
+                         ELSE LET i1 == PosRelat(i0[2])  j1 == PosRelat(j0[2])
+                                  i == IF i1 < 1 THEN 1 ELSE i1   j == IF j1 > l THEN l ELSE j1 IN
+                              RetV(st, <<Str(IF i > j THEN <<>> ELSE SubSeq(b, i, j))>>, multi))
+                   [] name = "str.byte" ->
+                        (LET i0 == IntArg(a2, 1) IN
+                         IF i0[1] # "n" THEN Unmod(st, "byte index")
+                         ELSE LET i1 == PosRelat(i0[2])
+                                  j0 == IntArg(a3, i1) IN
+                              IF j0[1] # "n" THEN Unmod(st, "byte index")
+                              ELSE LET j1 == PosRelat(j0[2])
+                                       i == IF i1 < 1 THEN 1 ELSE i1   j == IF j1 > l THEN l ELSE j1 IN
+                                   RetV(st, IF i > j THEN <<>> ELSE [x \in 1..(j - i + 1) |-> Num(b[i + x - 1])], multi))
+                   [] name = "str.rep" ->
+                        (LET c == IntArg(a2, 0) IN
+                         IF c[1] # "n" THEN Fault(st, ln)
+                         ELSE IF c[2] * l > 200 THEN Unmod(st, "rep too long")
+                         ELSE LET RECURSIVE Rep(_)
+                                  Rep(k) == IF k <= 0 THEN <<>> ELSE b \o Rep(k - 1) IN
+                              RetV(st, <<Str(Rep(c[2]))>>, multi)))
       [] name = "co.create" ->
            (IF ~(a1[1] = "f") THEN (IF IsFn(a1) THEN Unmod(st, "coroutine over host function") ELSE Fault(st, ln))
             ELSE RetV(AllocObj(st, [o |-> "co", status |-> "suspended", started |-> FALSE, fn |-> a1,
@@ -741,11 +817,15 @@ GlobalNames == <<"emit", "type", "tostring", "tonumber", "select", "unpack", "ra
                  "next", "pairs", "ipairs", "setmetatable", "getmetatable", "pcall", "xpcall", "error", "assert",
                  "getfenv", "setfenv", "newproxy", "gret", "gcall", "gerr", "gpanic", "snap">>
 CoNames == <<"create", "resume", "yield", "status", "wrap", "running">>
+DbgNames == <<"getinfo", "getlocal", "setlocal", "getupvalue", "setupvalue">>
+StrNames == <<"sub", "len", "byte", "rep">>
 
-(* heap: 1 = globals, 2 = main closure, 3 = coroutine table, 4 = string metatable, 5 = string table *)
+(* heap: 1 = globals, 2 = main closure, 3 = coroutine table, 4 = string metatable, 5 = string table, 6 = debug table *)
 InitState(root) ==
     LET gkv == [i \in 1..Len(GlobalNames) |-> <<Str(Bytes(GlobalNames[i])), <<"bi", GlobalNames[i]>>>>]
-               \o <<<<Str(Bytes("coroutine")), <<"t", 3>>>>, <<Str(Bytes("string")), <<"t", 5>>>>, <<Str(Bytes("_G")), <<"t", 1>>>>>>
+               \o <<<<Str(Bytes("coroutine")), <<"t", 3>>>>, <<Str(Bytes("string")), <<"t", 5>>>>, <<Str(Bytes("_G")), <<"t", 1>>>>, <<Str(Bytes("debug")), <<"t", 6>>>>>>
+        strkv == [i \in 1..Len(StrNames) |-> <<Str(Bytes(StrNames[i])), <<"bi", "str." \o StrNames[i]>>>>]
+        dbgkv == [i \in 1..Len(DbgNames) |-> <<Str(Bytes(DbgNames[i])), <<"bi", "dbg." \o DbgNames[i]>>>>]
         cokv == [i \in 1..Len(CoNames) |-> <<Str(Bytes(CoNames[i])), <<"bi", "co." \o CoNames[i]>>>>]
     IN [kont |-> <<[w |-> "ret", m |-> TRUE, va |-> <<>>, vh |-> 0, ln |-> NoPos, fn |-> 2, base |-> 0], BlockItem(root, <<>>)>>,
         vals |-> <<>>,
@@ -754,7 +834,8 @@ InitState(root) ==
                    [o |-> "fn", node |-> 0, env |-> <<>>, fenv |-> 1],
                    [o |-> "tab", kv |-> cokv, mt |-> 0],
                    [o |-> "tab", kv |-> <<<<Str(Bytes("__index")), <<"t", 5>>>>>>, mt |-> 0],
-                   [o |-> "tab", kv |-> <<>>, mt |-> 0]>>,
+                   [o |-> "tab", kv |-> strkv, mt |-> 0],
+                   [o |-> "tab", kv |-> dbgkv, mt |-> 0]>>,
         out |-> <<>>, seen |-> <<>>, mode |-> "run", res |-> <<>>, steps |-> 0,
         cur |-> 0, mainK |-> <<>>, mainV |-> <<>>, G |-> 1, smt |-> 4]
 
